@@ -914,3 +914,91 @@ def s18d_sequence_validate(ctx):
             r.sample({'sequence of': key.split('|')[1], 'decides with': 'all(%s) over self.as_ref().iter()' % pred})
     r.floor('Sequence::validate impls', 2, n)
     return r
+
+
+def s18e_source_redispatch(ctx):
+    """Sibling agreement: a function that dispatches on a `Source` value by itself (instead of calling OHLCV::source) must send every
+    kind to the accessor OHLCV::source sends it to - including the kinds its wildcard arm covers."""
+    f = ctx.facts('default')
+    m = Model(f)
+    r = RuleResult('S18e', 'every hand-written dispatch on Source agrees with OHLCV::source, kind by kind (wildcard arms included)')
+    SRC = None
+    for p, a in f.adts.items():
+        if p.endswith('core::candles::Source'):
+            SRC = a
+    if SRC is None:
+        raise Broken('Source enum not found')
+    variants = [v['name'] for v in SRC['variants']]
+    ohlcv = f.traits[T_OHLCV]
+    sp = [it['path'] for it in ohlcv['items'] if it['name'] == 'source']
+    if not sp:
+        raise Broken('OHLCV::source not found')
+    accessors = {it['name'] for it in ohlcv['items'] if it['kind'] == 'Fn'}
+
+    def kinds_of(pf, body):
+        """set of variant names this path is taken for (None: the path does not depend on a Source discriminant)"""
+        ks = None
+        for d, vals, bi, allv in pf.decisions:
+            if d[0] != 'discr':
+                continue
+            # the scrutinee must be a Source
+            blk = body.blocks[bi]
+            ok = False
+            for s in blk['stmts']:
+                if s['s'] == 'assign' and s['rv']['r'] == 'discr' and s['rv']['pl']['ty'].lstrip('&').replace('mut ', '') == SRC['path']:
+                    ok = True
+            if not ok:
+                continue
+            if vals != 'otherwise':
+                cur = {variants[v] for v in vals if v < len(variants)}
+            else:
+                cur = {variants[i] for i in range(len(variants)) if i not in allv}
+            ks = cur if ks is None else (ks & cur)
+        return ks
+
+    def table_of(body):
+        rows = []
+        for pf in all_path_facts(body, limit=3000):
+            if not pf.returns:
+                continue
+            ks = kinds_of(pf, body)
+            if not ks:
+                continue
+            acc = [t['callee']['name'] for b, tr, t in pf.calls if (t['callee'].get('trait') or '').endswith('OHLCV') and t['callee']['name'] in accessors]
+            rows.append((ks, acc))
+        return rows
+
+    sb = m.body_inlined(sp[0], prefer_mono=False)
+    T = {}
+    for ks, acc in table_of(sb):
+        if len(ks) == 1 and len(acc) == 1:
+            T[next(iter(ks))] = acc[0]
+    r.floor('kinds decided by OHLCV::source', 8, len(T))
+    if len(T) < len(variants):
+        r.undecided.append('OHLCV::source does not decide %s by a direct accessor call' % sorted(set(variants) - set(T)))
+    n = 0
+    for bid, bj in sorted(f.bodies.items()):
+        if not bj['generic'] or bj.get('closure_of') or '::tests::' in bj['def'] or bj['def'] == sp[0]:
+            continue
+        if not any(s['s'] == 'assign' and s['rv']['r'] == 'discr' and s['rv']['pl']['ty'].lstrip('&').replace('mut ', '') == SRC['path']
+                   for blk in bj['blocks'] for s in blk['stmts']):
+            continue
+        body = m.body_inlined(bj['def'], prefer_mono=False) or Body(bj)
+        try:
+            rows = table_of(body)
+        except Exception:
+            r.undecided.append('%s: too many paths' % bj['def'])
+            continue
+        rows = [(ks, acc) for ks, acc in rows if len(acc) == 1 and acc[0] != 'source']
+        if not rows:
+            continue
+        n += 1
+        for ks, acc in rows:
+            for V in sorted(ks):
+                key = '%s|%s' % (bj['def'], V)
+                r.inst(key)
+                if V in T and T[V] != acc[0]:
+                    r.violate(key + '|' + acc[0], '%s sends Source::%s to `%s()`%s; OHLCV::source sends it to `%s()`' % (
+                        bj['def'], V, acc[0], ' through an arm that covers %d kinds' % len(ks) if len(ks) > 1 else '', T[V]), bj['file'], bj['line'])
+    r.info['hand-written dispatches'] = n
+    return r
